@@ -42,6 +42,7 @@ func init() {
 	)
 	addSelfTests("C36",
 		mutation{"timeout-by-assertion", "spec/tun/pipe.go", "	var e net.Error\n	if errors.As(err, &e) {\n		return e.Timeout()\n	}", "	if e, ok := err.(net.Error); ok {\n		return e.Timeout()\n	}", "wrap-transparent"},
+		mutation{"deadline-check-dropped", "spec/tun/pipe.go", "	t := errors.Is(err, context.DeadlineExceeded)\n	if t {\n		return t\n	}\n", "	_ = context.DeadlineExceeded\n", "decision-list"},
 		mutation{"notfound-by-equality", "gateway/proxy_handler.go", "	if errors.Is(e, tun.ErrDestinationNotFound) {", "	if e == tun.ErrDestinationNotFound {", "decision-list"},
 		mutation{"offline-as-502", "gateway/proxy_handler.go", "		w.WriteHeader(http.StatusServiceUnavailable)\n		fmt.Fprintf(w, \"Destination %s is not connected", "		w.WriteHeader(http.StatusBadGateway)\n		fmt.Fprintf(w, \"Destination %s is not connected", "decision-list"},
 		mutation{"close-without-status", "gateway/proxy_handler.go", "		if err != nil {\n			tun.SendStatusProto(conn, err)\n			conn.Close()\n			return\n		}", "		if err != nil {\n			conn.Close()\n			return\n		}", "tcp-status"},
@@ -594,6 +595,37 @@ func runC36(c *Ctx) {
 			c.Ob("wrap-transparent", fn.Name, fn.Decl.Pos(), true, "classifies the error only through errors.Is / errors.As")
 		}
 	}
+	// IsTimeout covers both kinds of timeout: a context deadline anywhere in the chain
+	// (errors.Is) and a net.Error that reports Timeout() (errors.As). errors.As stops at the
+	// first net.Error of the chain, and wrappers such as *net.OpError / *url.Error only look
+	// at their direct cause, so the errors.Is test cannot be dropped in favour of it.
+	it := c.Func("spec/tun", "", "IsTimeout")
+	okIs, okAs := false, false
+	for _, call := range it.CallsTo(false, "errors.Is") {
+		if it.Prov(call.Args[0]) == "param#0" && it.Prov(call.Args[1]) == "global:context.DeadlineExceeded" {
+			// a true result must reach `return true`
+			for _, r := range it.Returns() {
+				fs := it.FactsAt(r)
+				if fs.Has(func(fa *Fact) bool { return fa.Kind == FTrue && fa.Call == call }) || fs.Cmp(func(e, tag ast.Expr, truth bool, fa *Fact) bool {
+					id, ok := e.(*ast.Ident)
+					return ok && truth && it.varOf(id) != nil && it.Prov(id) == "call:errors.Is()"
+				}) {
+					v, _ := it.ConstVal(r.Results[0])
+					if v == "true" || it.Prov(r.Results[0]) == "call:errors.Is()" {
+						okIs = true
+					}
+				}
+			}
+		}
+	}
+	for _, call := range it.CallsTo(false, "errors.As") {
+		if it.Prov(call.Args[0]) == "param#0" && strings.Contains(typeStr(it, call.Args[1]), "net.Error") {
+			okAs = true
+		}
+	}
+	c.Ob("decision-list", "IsTimeout#context-deadline-anywhere-in-chain", it.Decl.Pos(), okIs, "a context.DeadlineExceeded anywhere in the chain is a timeout (errors.Is); errors.As alone stops at the first net.Error wrapper, whose Timeout() does not look deeper")
+	c.Ob("decision-list", "IsTimeout#net.Error-timeouts", it.Decl.Pos(), okAs, "a net.Error reporting Timeout() anywhere in the chain is a timeout (errors.As)")
+
 	// forwardTCP
 	ft := c.Func("gateway", "Gateway", "forwardTCP")
 	okDefer := false
